@@ -58,6 +58,12 @@ def main(tier, seed):
     for q in list(qs[-n_d2:]):
         if q[0] in ("and", "or"):
             qs.append((q[0], q[2], q[1]))
+    # every query whose user test raises on some values, against atoms that decide on their own, in both operand orders (whatever the random picks above
+    # were): a & b and b & a are equal queries, so they must also agree on the points where one operand raises
+    for r_ in raising:
+        for a_ in extra[:2] + [v for v in vocab if v[0] == "S" and v[3][0] in ("cmp", "exists")][:4]:
+            for op_ in ("and", "or"):
+                qs += [(op_, r_, a_), (op_, a_, r_)]
     shared_builders = {}                       # as in C09: all queries derive from one set of builder objects
     rqs = [M.real_query(tf, q, shared_builders) for q in qs]
     n = len(qs)
